@@ -1079,3 +1079,82 @@ mod test {
         server.reset();
     }
 }
+
+/// Verification hooks (only with `--cfg libtw2_verif`): clone and project the
+/// private state of a `Connection`.
+#[cfg(libtw2_verif)]
+pub mod verif {
+    use super::Connection;
+    use super::PacketBuilder;
+    use super::State;
+
+    /// Timers are reported in microseconds since the epoch.
+    #[derive(Clone, Debug, Eq, PartialEq)]
+    pub struct VerifState {
+        pub state: &'static str,
+        pub own_token: Option<[u8; 4]>,
+        pub their_token: Option<[u8; 4]>,
+        pub ack: u16,
+        pub sequence: u16,
+        pub request_resend: bool,
+        pub packet: (u8, Vec<u8>),
+        pub packet_nonvital: (u8, Vec<u8>),
+        /// Front (most recently sent) first: (sequence, next_send, data).
+        pub resend_queue: Vec<(u16, Option<u64>, Vec<u8>)>,
+        pub send: Option<u64>,
+    }
+
+    impl Connection {
+        pub fn verif_clone(&self) -> Connection {
+            Connection {
+                state: self.state.clone(),
+                send: self.send,
+                builder: PacketBuilder::new(),
+            }
+        }
+        pub fn verif_state(&self) -> VerifState {
+            let mut result = VerifState {
+                state: match self.state {
+                    State::Unconnected => "unconnected",
+                    State::Token(_) => "token",
+                    State::PendingConnect(_) => "pending_connect",
+                    State::Connecting(_) => "connecting",
+                    State::Pending(_) => "pending",
+                    State::Online(_) => "online",
+                    State::Disconnected => "disconnected",
+                },
+                own_token: self.state.own_token().map(|t| t.0),
+                their_token: self.state.their_token().map(|t| t.0),
+                ack: 0,
+                sequence: 0,
+                request_resend: false,
+                packet: (0, Vec::new()),
+                packet_nonvital: (0, Vec::new()),
+                resend_queue: Vec::new(),
+                send: self.send.to_opt().map(|t| t.as_usecs_since_epoch()),
+            };
+            if let State::Online(ref o) = self.state {
+                result.ack = o.ack.to_u16();
+                result.sequence = o.sequence.to_u16();
+                result.request_resend = o.request_resend;
+                result.packet = (o.packet.num_chunks, o.packet.data.to_vec());
+                result.packet_nonvital = (
+                    o.packet_nonvital.num_chunks,
+                    o.packet_nonvital.data.to_vec(),
+                );
+                result.resend_queue = o
+                    .resend_queue
+                    .iter()
+                    .map(|c| {
+                        (
+                            c.sequence.to_u16(),
+                            c.next_send.to_opt().map(|t| t.as_usecs_since_epoch()),
+                            c.data.to_vec(),
+                        )
+                    })
+                    .collect();
+            }
+            result
+        }
+    }
+}
